@@ -9,7 +9,7 @@ behaviour of pickle (fresh identities, sharing preserved, integers verbatim).  I
 which identities key the tables of the copy, which contexts an event on each model of the
 copy enters, the state of the re-created locks — and, by theorems C15_same /
 C15_independent, that every comparison flag of the behavioural differential below is 1.
-The only known-finding class left is KF-C15-3 (async classes with queued='model').
+The former KF-C15-1/-2/-3 and KF-C15-5 are fixed in /repo (74ef53e, 3c0ca68, 9fbcaa5, 538f6a5); KF-C15-4 is left.
 
 Implementation side: real machines from /repo with callbacks given BY NAME as methods of
 the picklable classes defined in this module; history prefix, pickle.loads(pickle.dumps(m)),
@@ -75,7 +75,7 @@ ASSUMPTIONS = [
 THEOREMS = ['C15_hooks_table', 'C15_reachable_wf', 'C15_same', 'C15_same_run', 'C15_same_run_quiet',
             'C15_rekey_contexts', 'C15_pickles_always', 'C15_rekey_graphs', 'C15_locks_free', 'C15_fresh_identities', 'C15_frame',
             'C15_independent_run', 'C15_independent', 'C15_hold_independent', 'C15_envelope_inhabited',
-            'C15_locked_graph_rekeyed', 'C15_unhashable_pickles', 'C15_same_refuted_async_queue',
+            'C15_locked_graph_rekeyed', 'C15_unhashable_pickles', 'C15_async_queue_rekeyed', 'C15_guard_reachable',
             'C15_via_model_nongraph', 'C15_via_model_graph', 'C15_via_model_refuted_graph', 'C15_ident_owner_kept']
 
 
@@ -413,7 +413,8 @@ def _hooks_code(cls):
             break
         if '__getstate__' in vars(k):
             return {'LockedMachine': 1, 'GraphMachine': 2, 'LockedGraphMachine': 3,
-                    'LockedHierarchicalGraphMachine': 3}.get(k.__name__, 9)
+                    'LockedHierarchicalGraphMachine': 3, 'AsyncMachine': 4, 'AsyncGraphMachine': 5,
+                    'HierarchicalAsyncGraphMachine': 5}.get(k.__name__, 9)
     return 0
 
 
@@ -868,7 +869,6 @@ def _impl_c15(case):
 # ====================================================================== canonical form, oracle, known findings
 def kf_classes(case):
     """known-finding classes of a case (decidable from the case alone):
-    KF-C15-3  an async class with queued='model': the per-model queue table is not re-keyed;
     KF-C15-4  a graph class pickled THROUGH one of its models (not the machine itself): the graph of that model's
               copy styles no state as active until its next transition;
     KF-C15-5  a locked class pickled from INSIDE its contexts (a callback): IdentManager.current travels with the
@@ -876,8 +876,6 @@ def kf_classes(case):
     The former KF-C15-1 / KF-C15-2 are fixed in /repo (74ef53e, 3c0ca68) and are ordinary cases."""
     graph, nested, locked, is_async = _flags(case)
     out = []
-    if is_async and case['qmode'] == 'model':
-        out.append('KF-C15-3')
     if graph and case.get('entry') is not None and not (case['selfmodel'] and case['entry'] == 0):
         out.append('KF-C15-4')
     if locked and case.get('inside'):
@@ -892,15 +890,10 @@ def kf_class(case):
 
 def canon(case, obs):
     """behaviour flags that a known finding is known to spoil are not compared:
-    KF-C15-3: every event on the copy raises KeyError (the whole behaviour part);
     KF-C15-4: the diagram of the entry model differs until its next transition (the markup/diagram flag)"""
     if not isinstance(obs, list) or len(obs) < 3 or not isinstance(obs[2], list) or obs[2][:1] != [1]:
         return obs
     ks = kf_classes(case)
-    if 'KF-C15-3' in ks:
-        obs = copy.deepcopy(obs)
-        obs[2][2] = []
-        return obs[:3]
     if 'KF-C15-4' in ks or 'KF-C15-5' in ks:
         obs = copy.deepcopy(obs)
         beh = obs[2][2]
@@ -981,7 +974,6 @@ def failing_clauses(case, obs):
 
 
 KF_ALLOWED = {
-    'KF-C15-3': {'queue table of the copy keyed by the identities of its models'},
     'KF-C15-4': {'graph of the model through which unpickling entered equals a regenerated graph'},
     'KF-C15-5': {'IdentManager of the copy names no owning thread'},
 }
